@@ -498,9 +498,15 @@ DenUnion(G, k, p, slow) ==
             enumB == {b \in 1..nb : Eff(G[u.variants[b]]) = "enum" /\ IndexOf(G[u.variants[b]].symbols, p.variant, 1) # 0}
             textB == {b \in 1..nb : Eff(G[u.variants[b]]) \in {"string", "bytes"}}
             r    == nullB \cup enumB
+            enumAll == {b \in 1..nb : Eff(G[u.variants[b]]) = "enum"}
         IN  IF Cardinality(r) = 1 THEN
-                \* by name: variant `Null` designates the null branch, a symbol designates its enum
+                \* by name: variant `Null` designates the null branch, a symbol designates its enum - when that enum is the only
+                \* enum branch.  With several enum branches the presentation's TYPE fits them all, so the choice is not determined by
+                \* type (the serializer reports the ambiguity, which C02 lists as an error case); an Ok must still be the right one.
                 LET b == CHOOSE x \in r : TRUE IN
+                IF b \in enumB /\ Cardinality(enumAll) > 1
+                THEN WrapBranch(b, RFree([t |-> "enum", i |-> IndexOf(G[u.variants[b]].symbols, p.variant, 1) - 1]))
+                ELSE
                 WrapBranch(b, IF b \in nullB THEN ROk(VNull)
                               ELSE ROk([t |-> "enum", i |-> IndexOf(G[u.variants[b]].symbols, p.variant, 1) - 1]))
             ELSE IF r = {} /\ textB = {} THEN RErr
